@@ -6,6 +6,14 @@ HERE = os.path.dirname(os.path.dirname(os.path.abspath(__file__)))
 props = [json.loads(l) for l in open(os.path.join(HERE, "properties.jsonl"))]
 
 CLAIMS = {
+ "C04": dict(
+  technique="custom static checker: abstract execution (constant folding over a small heap model) of every list primitive on every list of 0..4 records x every match pattern, exhaustive folding of isInPeriod over the 16 period pairs and of hash, structural coverage rules for the bucket loops, must-call pairing on the allocate/release/realloc paths, argument-slot agreement for record stamping, routing tables of the global operator overloads and function-pointer slots",
+  text="Decides necessary conditions of exact accounting: records are filed and searched in the bucket of their own address, every bucket is visited by totals/first/next/clear, the period visibility table is exact, clear/remove/retrieve/total/first-from behave exactly on every short list and pattern (their per-node transition is uniform), every successful allocation stores one stamped record and every release removes first, the report counts every leak, and every operator new/delete/malloc overload reaches the tracked function, allocator family and record layout of its own kind. Equality of the table with the true outstanding set after every unbounded history is NOT decided (heap shape).",
+  note="Trusted: clang AST/CFG; folding bounds (lists <= 4) cover all states of the uniform per-node transitions; allocator addresses arbitrary."),
+ "C07": dict(
+  technique="custom static checker: predicate-abstraction skeleton of the leak plugin's post action over (ignore flag, expected != leaks, failure count unchanged, overloads on) with must-call-on-every-exit rules, period-constant tables of the detector's mode switches, demotion walk rule, bracketing order in the test runner, final-report skeleton",
+  text="Decides that the checking period starts before setup and stops first thing in the post action, that a leak failure is added exactly when the test did not ask to ignore, the checking-period count differs from the expected one, no failure was added meanwhile and the overloads are on, with the checking-period report as text; that on every exit the test's records are demoted to the enabled period and both flags reset (so a leak is never charged to a later test); that new records carry the current period; and that the final report covers the enabled period and is printed iff the run result is 0. Attribution for arbitrary programs rests on C04's undecided exactness.",
+  note="Trusted: C04's primitives; clang AST/CFG."),
  "C06": dict(
   technique="custom static checker: predicate-abstraction skeleton of checkForCorruption and deallocMemory, exhaustive folding of matchingAllocation, abstract execution of the guard-byte writer followed by the reader for the intact pattern and for every single-position change, sibling rules over the tracked release wrappers (poison before release, same pointer) and over the wrapper-allocator class hierarchy",
   text="Decides that each outcome of (family match, guard validity, record layout) maps to exactly the one report the property names in mismatch-first order, that every guard byte position is compared against the value the writer put there, that releasing NULL is silent, an unknown address gives one non-allocated report and no free, a known block is checked then freed once, that every delete/delete[]/free wrapper poisons the same pointer before releasing it, and that every wrapper allocator resolves to the wrapped allocator for the family comparison. Which bytes user code writes is not decided.",
